@@ -212,7 +212,7 @@ def run(repo, rep, tier):
     # are attribute values, escaped with their quote): identify() (C03)
     from . import c03 as _c03
     L.borrow(repo, rep, "R02.1", "C03", _c03.parser_details,
-             ("identify-ends",))
+             ("identify-ends", "identify-kinds"), minimum=2)
     from . import c14
     L.borrow(repo, rep, "R02.5", "C14", c14._publish, ("registry-key",))
     # an unquoted attribute value that receives a computed value is quoted
